@@ -1131,6 +1131,11 @@ impl World {
 		if ids.iter().any(|id| self.oracle.removes_delivered.contains(&(ci, n, *id))) {
 			return;
 		}
+		// PaymentFailed after PaymentSent from a stale ChannelManager is C03-5's subject (the HTLC is
+		// missing from the newer monitor because it was settled, not because of chain data)
+		if !self.pays[pay].ev.sent.is_empty() {
+			return;
+		}
 		self.out.bump("oracle:C11-3 no on-chain conclusion before the anti-reorg depth");
 		let tip = self.chain.tip_height();
 		if let Some((h, tx)) = self.chain.confirmed_spender(&self.chans[ci].funding) {
